@@ -2,7 +2,7 @@
    verified recognisers.  This file is what stops compiling when a row of mir-interp.c changes its
    operator, width, signedness or casts. *)
 From Coq Require Import ZArith Bool List String.
-From MirV Require Import Mir.DocSpec Mir.CExpr C02.RowCheck C02.Table gen.InterpTable.
+From MirV Require Import Mir.DocSpec Mir.CExpr C02.RowCheck C02.Table C02.MemRows gen.InterpTable.
 Import ListNotations.
 
 Lemma interp_table_ok : table_ok interp_table = true.
@@ -27,4 +27,26 @@ Proof.
   intros op s Hin args r sf uf Hd.
   assert (Hld : ld_opcode op = false) by (unfold doc_ovf in Hd; destruct op; cbn in Hd; try discriminate; reflexivity).
   destruct (interp_rows_sound op s Hin Hld) as (_ & _ & _ & H). eauto.
+Qed.
+
+(* memory pseudo instructions of the interpreter *)
+Lemma interp_aux_ok : forallb (fun r => aux_row_ok (fst r) (snd r)) interp_aux_table = true.
+Proof. vm_compute. reflexivity. Qed.
+
+Definition aux_names : list string :=
+  ["IC_LDI8"; "IC_LDU8"; "IC_LDI16"; "IC_LDU16"; "IC_LDI32"; "IC_LDU32"; "IC_LDI64"; "IC_LDF"; "IC_LDD"; "IC_LDLD";
+   "IC_STI8"; "IC_STU8"; "IC_STI16"; "IC_STU16"; "IC_STI32"; "IC_STU32"; "IC_STI64"; "IC_STF"; "IC_STD"; "IC_STLD"]%string.
+
+Lemma interp_aux_total : forallb (fun n => existsb (fun r => String.eqb (fst r) n) interp_aux_table) aux_names = true.
+Proof. vm_compute. reflexivity. Qed.
+
+Lemma interp_mem_rows : forall name s, In (name, s) interp_aux_table ->
+  match aux_type name with
+  | Some (true, ty) => forall bytes, stmt_load s bytes = Some (load_ext ty bytes)
+  | Some (false, ty) => forall p rest, stmt_store (p :: rest) s = Some (store_trunc ty p)
+  | None => False
+  end.
+Proof.
+  intros name s Hin. pose proof interp_aux_ok as H. rewrite forallb_forall in H.
+  specialize (H (name, s) Hin). cbn [fst snd] in H. apply aux_row_ok_sound. exact H.
 Qed.
